@@ -672,6 +672,12 @@ pub fn run_stress(focus: &'static str, seed: u64, index: u64, args: &Args) -> Ca
     sched().release_all();
     sched().set_random(rng.next(), perturb.0, perturb.1, perturb.2);
     sched().quiet_mask.store(0, Ordering::SeqCst);
+    // two cases in three: one lock-holding site is stretched a few dozen times (1-3 ms each), so that the other threads pile up behind
+    // the lock it holds while they hold theirs — what a cycle among three parties needs
+    if index % 3 != 0 {
+        let site = *rng.pick(&[Site::WeightDeleteHoldingTotal, Site::WeightUpdateHoldingEntry, Site::SweepBeforeEvict, Site::WeightDeleteAfterRemove, Site::AdmissionAfterEvict, Site::WorkerDeleteAfterStore]);
+        sched().force_delay(site, rng.range(1000, 3000), rng.range(20, 60));
+    }
     sched().start_trace();
     let panic_mark = rt::panic_count();
     let sut = Sut::new(sutcfg);
